@@ -166,7 +166,7 @@ PROPS = {
     },
     "C17": {
         "lean": ["FsnVerif.Props.C17"],
-        "lean_support": ["FsnVerif.Proofs.KqLemmas", "FsnVerif.Model.Kqueue"],
+        "lean_support": ["FsnVerif.Proofs.KqLemmas", "FsnVerif.Model.Kqueue", "FsnVerif.Model.KqFull", "FsnVerif.Proofs.KqFullLemmas", "FsnVerif.Proofs.KqFullInv"],
         "stages": [{"name": "kq", "cmd": "scratch:kq", "what": "C17", "session_ops": ["kqf", "reset"]}],
         "rule": KQ_RULE,
         "assumptions": ["the kqueue kernel interface is SIMULATED (kqsim/unix): EVFILT_VNODE knotes with EV_CLEAR coalescing, close-pipe EOF; "
@@ -174,7 +174,7 @@ PROPS = {
     },
     "C18": {
         "lean": ["FsnVerif.Props.C18"],
-        "lean_support": ["FsnVerif.Model.Kqueue"],
+        "lean_support": ["FsnVerif.Model.Kqueue", "FsnVerif.Model.KqFull"],
         "stages": [{"name": "kq", "cmd": "scratch:kq", "what": "C18", "session_ops": ["kqf", "reset"]}],
         "rule": KQ_RULE,
         "assumptions": ["as C17; event order within one kevent batch follows descriptor order in the simulation: events of one step are compared as multisets"],
